@@ -639,7 +639,7 @@ static gd_entry_t *_GD_ParseLincom(DIRFILE *restrict D,
 
   E->flags |= GD_EN_CALC;
   E->EN(lincom,n_fields) = (int)(strtol(in_cols[2], &ptr, 10));
-  if (*ptr != '\0') {
+  if (*ptr != '\0' && GD_PVERS_GE(*p, 7)) {
     E->EN(lincom,n_fields) = (n_cols - 2) / 3;
     /* assume <n> has been omitted */
     if (n_cols % 3 != 2 || E->EN(lincom,n_fields) < 1 || E->EN(lincom,n_fields)
